@@ -1,7 +1,11 @@
 import GomlVerif.Lemmas.DcePrune
+import GomlVerif.Lemmas.DceScope
 /-!
 # DCE (C02 / C09): theorems about the model of `go/dce.rs` (`Model/Dce.lean`)
 
+(a) `dce_no_unused`, (b) `dce_decl_before_use` — Go's two rules about locals, for every block
+that is well scoped (`scopeErrs = []`: every local is declared before use and nothing is
+shadowed) and contains no block expression (`shapeOK`);
 (d) `prune_imports_exact`, `prune_funcs_closed`, `prune_funcs_keeps_roots`.
 -/
 set_option linter.unusedSimpArgs false
@@ -13,6 +17,62 @@ open Goml.Go
     Rust source, is the one `exprEffects` was written against (a changed arm list stops the build) -/
 theorem effects_table_is_modelled :
     Goml.Gen.dceAlwaysEffects = ["Call", "Index", "UnaryOp.Deref", "BinaryOp.Div", "Cast"] := by decide
+
+/-! ## (a), (b) the two Go rules DCE exists for -/
+
+/-- **(a) no unused local** — in the output of `dce_block_with_live` on a function body every
+    declared local and every kept type-switch binding is read later in its scope.
+    Hypotheses on the input: `scopeErrs D scope ss = []` (locals declared before use, no
+    shadowing; `D` = all locals of the function, `scope` = its parameters) and `shapeOK ss`
+    (no `Expr::Block`, which the backend never builds).  Both are decidable and evaluated on
+    every input of the correspondence run. -/
+theorem dce_no_unused (D scope : Names) (ss : List GStmt)
+    (hscope : scopeErrs D scope ss = []) (hshape : shapeOK ss = true) :
+    unusedStmts (dceBody ss) = [] :=
+  (scope_body D scope ss hscope hshape).2
+
+/-- **(b) declared before use** — if every use of a local in the input is preceded by its
+    declaration in scope (and nothing is shadowed), the same holds of the output: DCE never
+    removes a declaration that a kept read or a kept assignment still needs. -/
+theorem dce_decl_before_use (D scope : Names) (ss : List GStmt)
+    (hscope : scopeErrs D scope ss = []) (hshape : shapeOK ss = true) :
+    scopeErrs D scope (dceBody ss) = [] :=
+  (scope_body D scope ss hscope hshape).1
+
+/-- per function: `D` = parameters + everything declared in the body -/
+theorem dce_fn_scope_sound (f : GFunc)
+    (hscope : scopeErrs (localsOf f) (f.params.map (·.1)) f.body = []) (hshape : shapeOK f.body = true) :
+    scopeErrs (localsOf f) (f.params.map (·.1)) (dceBody f.body) = [] ∧ unusedStmts (dceBody f.body) = [] :=
+  scope_body _ _ f.body hscope hshape
+
+section Examples
+private def i32 : GTy := .int 32 true
+private def vx (x : String) : GExpr := .var x i32
+private def pr (e : GExpr) : GStmt := .expr (.call .unit (.var "show" (.func [i32] .unit)) [e])
+
+/-- `var a = 1; var dead = a + 1; var r int32; if a < 2 { r = 3 } else { r = f() }; show(r)` -/
+private def exBody : List GStmt :=
+  [ .varDecl "a" i32 (some (.int "1" i32)),
+    .varDecl "dead" i32 (some (.bin .add i32 (vx "a") (.int "1" i32))),
+    .varDecl "r" i32 none,
+    .ite (.bin .less .bool (vx "a") (.int "2" i32))
+      [.assign "r" (.int "3" i32)]
+      (some [.varDecl "t" i32 (some (.call i32 (.var "f" (.func [] i32)) [])), .assign "r" (vx "t")]),
+    pr (vx "r") ]
+
+/-- non-vacuity: the hypotheses hold of a block on which DCE does something -/
+example : scopeErrs ["a", "dead", "r", "t"] [] exBody = [] ∧ shapeOK exBody = true ∧
+    (dceBody exBody).length = 4 ∧ unusedStmts exBody = ["dead"] := by decide
+
+/-- the shadowing hypothesis is needed: `var x = 0; if c { var x = 2 }; show(x)` — the inner,
+    never-read `x` is kept because the name `x` is live after the `if` (liveness is by name) -/
+private def exShadow : List GStmt :=
+  [ .varDecl "x" i32 (some (.int "0" i32)),
+    .ite (.bool true) [.varDecl "x" i32 (some (.int "2" i32))] none,
+    pr (vx "x") ]
+
+example : unusedStmts (dceBody exShadow) = ["x"] ∧ scopeErrs ["x"] [] exShadow = ["x"] := by decide
+end Examples
 
 /-! ## (d) pruning -/
 /-- **`prune_unused_imports` is exact**: an import spec survives iff some call node
